@@ -13,18 +13,19 @@ if [ ! -d $wt ]; then git -C /repo worktree add --detach $wt HEAD >/dev/null 2>&
 git -C $wt checkout -q --detach $(git -C /repo rev-parse HEAD) 2>/dev/null; git -C $wt checkout -q -- . ; git -C $wt clean -fdq -e target
 demo_path=$(grep -m1 -oE "Place demo.rs at: *[^ ]+" $src/demo.txt | sed 's/Place demo.rs at: *//')
 crate=${demo_path%%/*}; tname=$(basename $demo_path .rs)
+feat=$(grep -m1 -oE -- "--features [A-Za-z0-9_,-]+" $src/demo.txt || true)
 res() { echo "$1" | tee -a $log; }
 cd $wt
 if ! git apply $src/patch.diff 2>>$log; then res "APPLY=fail"; applied=0; else res "APPLY=ok"; applied=1; fi
 demo_with=na; suite=na; demo_without=na
 if [ $applied = 1 ]; then
   mkdir -p $(dirname $demo_path); cp $src/demo.rs $demo_path
-  if cargo test --offline -p $crate --test $tname >>$log 2>&1; then demo_with=pass; else demo_with=fail; fi
+  if cargo test --offline -p $crate --test $tname $feat >>$log 2>&1; then demo_with=pass; else demo_with=fail; fi
   rm -f $demo_path
   if cargo test --offline --workspace --no-fail-fast >>$log 2>&1; then suite=pass; else suite=fail; fi
   git checkout -q -- .
   mkdir -p $(dirname $demo_path); cp $src/demo.rs $demo_path
-  if cargo test --offline -p $crate --test $tname >>$log 2>&1; then demo_without=pass; else demo_without=fail; fi
+  if cargo test --offline -p $crate --test $tname $feat >>$log 2>&1; then demo_without=pass; else demo_without=fail; fi
   rm -f $demo_path; git clean -fdq -e target
 fi
 res "DEMO_WITH_PATCH=$demo_with EXISTING_SUITE_WITH_PATCH=$suite DEMO_WITHOUT_PATCH=$demo_without"
